@@ -29,6 +29,8 @@ fn lg(n: usize) -> u64 {
 struct Meas {
     /// (op, n) -> (max cmp, max hash, max eq, samples)
     m: BTreeMap<(String, usize), (u64, u64, u64, u64)>,
+    structural: Vec<(usize, String)>,
+    structural_checks: u64,
 }
 impl Meas {
     fn rec(&mut self, op: &str, n: usize, d: [u64; NCB]) {
@@ -244,6 +246,24 @@ fn measure_single<Q: QueueApi>(n: usize, pat: &str, seed: u64, reps: usize, meas
             }
         }
     }
+    // the large queues of this mode are also a correctness workload: after all the updates the
+    // tables must be consistent, the heap ordered and a full drain monotone
+    let snap = q.snapshot();
+    let ok = snap.tables().and_then(|_| match Q::KIND {
+        Kind::Pq => snap.order_max(),
+        Kind::Dpq => snap.order_minmax(),
+    });
+    if let Err(d) = ok {
+        meas.structural.push((n, d));
+    } else {
+        let len = q.len();
+        let v = q.into_sorted_pairs(true);
+        if v.len() != len || v.windows(2).any(|w| w[0].1.ord < w[1].1.ord) {
+            meas.structural.push((n, "descending drain of the measured queue is not monotone / complete".to_string()));
+        }
+        meas.structural_checks += 1;
+        return;
+    }
     drop(q);
 }
 
@@ -375,8 +395,16 @@ pub fn mode_cost(a: &Args) -> i32 {
             }
         }
     }
+    let mut structural_checks = 0u64;
+    for (kname, meas) in &per_kind {
+        structural_checks += meas.structural_checks;
+        for (n, d) in &meas.structural {
+            let v = Viol { monitor: "M-ORDER", op: "cost-workload".into(), kind: kname, detail: format!("after the measured updates on {} elements: {}", n, d), props: vec![if *kname == "pq" { "C01" } else { "C02" }, "C04"] };
+            sink.viol(&v.props, &v.sig(), &v.detail, serde_json::json!({"mode":"cost","kind":kname,"n":n}));
+        }
+    }
     let samples: Vec<serde_json::Value> = table.iter().filter(|r| r["n"].as_u64().unwrap_or(0) >= 256).take(6).cloned().collect();
-    sink.finish_counts("cost", evals, distinct, serde_json::json!({"cost_table": table, "calls_measured": evals, "samples": samples}));
+    sink.finish_counts("cost", evals, distinct, serde_json::json!({"cost_table": table, "calls_measured": evals, "structural_checks_on_large_queues": structural_checks, "samples": samples}));
     0
 }
 
